@@ -59,6 +59,14 @@ TEXT = {
             'All event lists up to length 3/4 in every order with duplicate times, plus all time sequences of length 4/5, x 4 timeline timesteps are run in a real Engine with the real TimelineProcess (also via add_timeline) and compared with the first-tick-reached reference trajectory.',
             'Timesteps divide the run length; several events on one variable in one tick apply in (time, listing) order.',
             'exhaustive enumeration of event lists against a reference trajectory'),
+    'C06': ('exploration', '3/C06',
+            'A grammar of ports schemas x well-formed topologies x placements is enumerated completely (one port: full grammar; two ports: full grammar pairs; three ports: reduced); for each shape the real Engine is run once to read and once per declared variable (and once for all) to write; reads and the full before/after diff of the hierarchy are compared with an independent resolver written from the documentation.',
+            'Topologies that omit ports or list only some variables in a _path-less dictionary are outside the well-formed alphabet; nodes that would be both variable and store are skipped.',
+            'bounded exhaustive program enumeration (schema x topology grammar) against a reference resolver with a full-state diff'),
+    'C15': ('exploration', '3/C15',
+            'For 1-3 processes with ports from the topology grammar that share variables, EVERY subset of resolved nodes is given an explicit initial value and the store is built through Engine(...) and generate_state(...); every node must hold explicit-else-default at the node named by the reference resolver; named glob children must exist with declared defaults; conflicting _value/_units/_serializer declarations must raise ValueError; Composite.initial_state()/default_state() are compared with per-process values mapped through the resolver.',
+            'Sharers declare equal defaults; differing defaults are merged silently by design.',
+            'bounded exhaustive enumeration of composites x initial-state subsets against a reference resolver'),
 }
 
 LEVEL_TEXT = {}
